@@ -51,7 +51,7 @@ class Transfer:
         self.cl = 0
         nsteps = 1 if self.size <= 4 else 1 + (self.size + 6) // 7
         self.nsteps = nsteps
-        self.behaviour = rng.choice(["ok"] * 6 + ["abort", "abort", "silent", "late", "toggle", "mux", "kind", "early", "oversize", "race", "race", "nmtreset", "nosize", "stale-answer", "stopped"])
+        self.behaviour = rng.choice(["ok"] * 6 + ["abort", "abort", "silent", "late", "toggle", "mux", "kind", "early", "oversize", "race", "race", "nmtreset", "nosize", "stale-answer", "stopped", "nodestop"])
         if huge:
             self.behaviour = rng.choice(["silent", "silent", "late", "ok", "abort", "stopped", "race"])
         self.race_n = self.tticks + rng.choice([-1, 0, 0, 0, 1, 3])
@@ -242,6 +242,25 @@ def run_sequence(res, exe, rng, first, forced=None, huge=False, two=False):
                     res.counters["resets_during_transfer"] += 1
                     done = cb[0][3]
                     break
+                if beh == "nodestop":
+                    # the application stops the node (CONodeStop) while the transfer runs: it ends there - one callback with an abort code,
+                    # no frame - and after CONodeInit / CONodeStart the client works like a fresh one
+                    if two or huge:
+                        beh = "ok"
+                    else:
+                        evs = sim.cmd("stop")
+                        cb = callbacks(evs)
+                        if len(cb) != 1 or cb[0][3] == 0 or cb[0][1] != tr.idx or cb[0][2] != tr.sub:
+                            return fail("callback/node-stop-during-transfer", desc + ": CONodeStop at step %d: callbacks %r, reference exactly one with an abort code" % (step, cb))
+                        if frames(evs):
+                            return fail("request-frame/node-stop-during-transfer", desc + ": frames at CONodeStop %r" % frames(evs))
+                        evs = sim.cmd("reinit") + sim.cmd("start")
+                        if callbacks(evs):
+                            return fail("callback/node-stop-during-transfer", desc + ": callbacks %r at the re-initialisation" % callbacks(evs))
+                        res.counters["node_stops_during_transfer"] += 1
+                        cbtimer = False          # (a timer the application started in that callback went with the re-initialisation of the pool)
+                        done = cb[0][3]
+                        break
                 if beh == "stopped":
                     # the node is stopped while the transfer waits for its answer: the timeout still completes the transfer (once), but
                     # a stopped node sends nothing except heartbeats - no abort frame
